@@ -179,7 +179,17 @@ impl Run {
         let mut group = None;
         let r;
         if flex {
-            let members: Vec<Member> = voters.iter().map(|v| Member { addr: w.addr(&s(v, "a")).to_string(), weight: n(v, "w") }).collect();
+            let mut members: Vec<Member> = voters.iter().map(|v| Member { addr: w.addr(&s(v, "a")).to_string(), weight: n(v, "w") }).collect();
+            if cfg.get("crowd").and_then(|x| x.as_bool()).unwrap_or(false) {
+                // 40 weightless members whose addresses sort first: the group is larger than any page or batch size of
+                // the code; totals, weights and thresholds are still those of the tracked members
+                let mut cands: Vec<Addr> = (0..400).map(|i| w.app.api().addr_make(&format!("crowd-candidate-{i}"))).collect();
+                cands.sort();
+                for (j, a) in cands.into_iter().take(40).enumerate() {
+                    w.register(&format!("crowd{j}"), &a);
+                    members.push(Member { addr: a.to_string(), weight: 0 });
+                }
+            }
             let gmsg = cw4_group::msg::InstantiateMsg { admin: Some(ga.to_string()), members };
             let g = match guarded(|| w.app.instantiate_contract(group_id, creator.clone(), &gmsg, &[], "group", None)) {
                 Ok(Ok(g)) => g,
@@ -668,7 +678,7 @@ pub fn rand_cfg(rng: &mut Rng) -> Value {
             _ => json!({"kind":"cw20","amt":rng.range(1,4),"refund":rng.chance(2,3)}),
         }
     };
-    json!({"flavour": if flex {"flex"} else {"fixed"}, "voters":voters, "thr":rand_thr(rng, total), "pden":PDEN7, "period":period, "executor":executor, "dep":dep, "hooked": flex && rng.chance(1, 2)})
+    json!({"flavour": if flex {"flex"} else {"fixed"}, "voters":voters, "thr":rand_thr(rng, total), "pden":PDEN7, "period":period, "executor":executor, "dep":dep, "hooked": flex && rng.chance(1, 2), "crowd": flex && rng.chance(1, 5)})
 }
 
 pub fn random_run(rng: &mut Rng, run_no: u64, len: usize, out: &mut Out) {
@@ -692,7 +702,8 @@ pub fn random_run(rng: &mut Rng, run_no: u64, len: usize, out: &mut Out) {
                 };
                 let funds = if run.dep_kind == "native" { match rng.below(6) { 0 => 0, 1 => dep_amt + 1, 2 => dep_amt.saturating_sub(1), _ => dep_amt } } else { 0 };
                 let fdenom = if run.dep_kind == "native" && rng.chance(1, 10) { OTHER } else { DEP };
-                let extra = if run.dep_kind == "native" && fdenom == DEP && rng.chance(1, 8) { rng.range(1, 3) } else { 0 };
+                // (coins of another denomination next to a native deposit, or stray native coins on a cw20-deposit multisig)
+                let extra = if ((run.dep_kind == "native" && fdenom == DEP) || run.dep_kind == "cw20") && rng.chance(1, 8) { rng.range(1, 3) } else { 0 };
                 json!({"act":"propose","by":who,"args":{"kind":kind,"latest":latest,"funds":funds,"fdenom":fdenom,"extra":extra}})
                 }
             }
